@@ -20,6 +20,9 @@ type Opts struct {
 	ObjRefs      bool
 	ClassExprs   bool
 	Switch       bool
+	MarkerHeavy  bool // whitespace markers on most elements
+	RenderHeavy  bool // favour @render / @children
+	EmptyBlocks  bool // allow a block that contains only `-#` comments
 	MultiLineFrags bool // Go fragments containing a newline (finding C07/multiline)
 }
 
@@ -174,7 +177,11 @@ func (g *G) elemHead() *Node {
 		n.ObjRef = g.pick("o0", `o0, "pre"`)
 	}
 	g.attrs(n)
-	switch g.R.Intn(8) {
+	mk := g.R.Intn(8)
+	if g.O.MarkerHeavy {
+		mk = g.R.Intn(4)
+	}
+	switch mk {
 	case 0:
 		n.NukeOuter = true
 	case 1:
@@ -211,6 +218,12 @@ func (g *G) Block(depth int) []*Node {
 	n := 1 + g.R.Intn(3)
 	for i := 0; i < n; i++ {
 		k := g.R.Intn(16)
+		if g.O.RenderHeavy && g.R.Intn(3) == 0 {
+			k = []int{9, 9, 11, 1}[g.R.Intn(4)]
+		}
+		if g.O.MarkerHeavy && g.R.Intn(3) == 0 {
+			k = []int{0, 1, 1, 2, 3}[g.R.Intn(5)]
+		}
 		if depth <= 0 && (k == 1 || k == 4 || k == 5 || k == 9 || k == 10 || k == 13) {
 			k = 0
 		}
@@ -328,7 +341,15 @@ func (g *G) Block(depth int) []*Node {
 			out = append(out, &Node{Kind: KRubyComment, Code: g.pick("note", "todo: x")})
 		}
 	}
-	if len(out) == 0 {
+	onlyComments := true
+	for _, n := range out {
+		if n.Kind != KRubyComment {
+			onlyComments = false
+		}
+	}
+	if len(out) == 0 || (onlyComments && !g.O.EmptyBlocks) {
+		// a control block whose only content is a `-#` comment has no children for the emitter:
+		// it prints `if cond` without braces (finding C03/empty-control-block)
 		out = append(out, &Node{Kind: KElem, Tag: "p", Inline: &Node{Kind: KText, Parts: []Part{{Static: "fallback"}}}})
 	}
 	return out
